@@ -40,11 +40,20 @@ class _Subst(ast.NodeTransformer):
             return copy.deepcopy(self.env[node.id])
         return node
 
+    def _scoped(self, node, bound):
+        inner = _Subst({k: v for k, v in self.env.items() if k not in bound})
+        return inner.generic_visit(node)
+
     def visit_Lambda(self, node):
-        return node
+        a = node.args
+        bound = {x.arg for x in a.posonlyargs + a.args + a.kwonlyargs} | ({a.vararg.arg} if a.vararg else set()) | ({a.kwarg.arg} if a.kwarg else set())
+        return self._scoped(node, bound)
 
     def visit_ListComp(self, node):
-        return node
+        bound = set()
+        for g in node.generators:
+            bound |= {n.id for n in ast.walk(g.target) if isinstance(n, ast.Name)}
+        return self._scoped(node, bound)
 
     visit_GeneratorExp = visit_SetComp = visit_DictComp = visit_ListComp
 
@@ -74,7 +83,44 @@ def _assigned_names(stmts_):
     return out
 
 
-_NEVER_NONE = (ast.BinOp, ast.Compare, ast.List, ast.Tuple, ast.Dict, ast.Set, ast.JoinedStr, ast.ListComp, ast.BoolOp)
+_NEVER_NONE = (ast.BinOp, ast.Compare, ast.List, ast.Tuple, ast.Dict, ast.Set, ast.JoinedStr, ast.ListComp)
+_MODULE_NAMES = {"np", "numpy", "warnings", "math", "sys", "os", "re", "itertools", "logging", "struct", "self", "cls", "nx", "Chem", "AllChem"}
+
+
+def _mutated_names(st):
+    """names whose object is (possibly) changed in place inside the statement without the name being rebound"""
+    out = set()
+    for n in ast.walk(st):
+        if isinstance(n, ast.Expr) and isinstance(n.value, ast.Call):
+            c_ = n.value
+            if isinstance(c_.func, ast.Attribute):
+                base = c_.func.value
+                while isinstance(base, (ast.Subscript, ast.Attribute)):
+                    base = base.value
+                if isinstance(base, ast.Name) and base.id not in _MODULE_NAMES:
+                    out.add(base.id)
+        if isinstance(n, ast.Call):
+            for k in n.keywords:
+                if k.arg == "out":
+                    base = k.value
+                    while isinstance(base, (ast.Subscript, ast.Attribute)):
+                        base = base.value
+                    if isinstance(base, ast.Name):
+                        out.add(base.id)
+        if isinstance(n, (ast.Assign, ast.AugAssign)):
+            for t in (n.targets if isinstance(n, ast.Assign) else [n.target]):
+                attr = False
+                while isinstance(t, (ast.Subscript, ast.Attribute)):
+                    attr = attr or isinstance(t, ast.Attribute)
+                    t = t.value
+                if isinstance(t, ast.Name) and attr and t.id not in ("self", "cls"):
+                    out.add(t.id)
+    return out
+
+
+def _scalar_like(rhs, cur):
+    """`x += <string>`: strings are immutable, the augmented assignment is a plain rebinding"""
+    return isinstance(rhs, ast.JoinedStr) or isinstance(rhs, ast.Constant) and isinstance(rhs.value, (str, bytes))
 
 
 def _known_truth(test):
@@ -98,19 +144,147 @@ def _known_truth(test):
     return None
 
 
+class Unsupported(Exception):
+    """the function uses a construct the summariser does not model: callers must fail closed"""
+
+
 class Summary:
     def __init__(self):
         self.guards = []   # test expressions whose truth raises
         self.result = None
         self.env = {}
+        self.unsupported = None   # reason why the summary is not trustworthy (then result is None and env is empty)
+
+
+_FRESH_CALLS = {"np.copy", "np.array", "np.zeros", "np.ones", "np.full", "np.empty", "np.arange", "np.concatenate", "np.stack",
+                "np.where", "np.sum", "np.mean", "np.sqrt", "np.abs", "np.dot", "np.matmul", "np.cross", "np.round", "np.diff",
+                "np.cumsum", "np.tile", "np.repeat", "np.transpose", "np.swapaxes", "list", "dict", "set", "tuple", "sorted", "str", "int", "float"}
+_PURE_STATEMENT_CALLS = {"print", "warnings.warn", "warn", "logging.warning", "logging.info", "logging.debug", "isinstance", "len"}
+
+
+def _is_fresh(e):
+    """does the expression denote a new object (so that changing it in place cannot be seen from outside)"""
+    if isinstance(e, (ast.BinOp, ast.UnaryOp, ast.Compare, ast.Constant, ast.List, ast.Tuple, ast.Dict, ast.Set, ast.ListComp, ast.JoinedStr, ast.BoolOp)):
+        return True
+    if isinstance(e, ast.IfExp):
+        return _is_fresh(e.body) and _is_fresh(e.orelse)
+    if isinstance(e, ast.Attribute) and e.attr.isupper():
+        return True      # enumeration member / named constant: immutable
+    if isinstance(e, ast.Call):
+        fn = call_name(e) or ""
+        if fn in _FRESH_CALLS or fn.startswith("__aug") or fn == "__set__" and _is_fresh(e.args[0]):
+            return True
+        if isinstance(e.func, ast.Attribute) and e.func.attr in ("copy", "astype", "reshape") and e.func.attr == "copy":
+            return True
+        if isinstance(e.func, ast.Attribute) and e.func.attr == "astype" and not any(k.arg == "copy" for k in e.keywords):
+            return True
+    return False
+
+
+def _has_exit(block, loop_level=True):
+    """does the statement list contain a return (any depth) or a continue/break of the enclosing loop"""
+    for st in block or []:
+        if isinstance(st, ast.Return):
+            return True
+        if isinstance(st, (ast.Continue, ast.Break)) and loop_level:
+            return True
+        if isinstance(st, (ast.FunctionDef, ast.AsyncFunctionDef, ast.ClassDef)):
+            continue
+        inner_loop = isinstance(st, (ast.For, ast.While, ast.AsyncFor))
+        for field in ("body", "orelse", "finalbody"):
+            if _has_exit(getattr(st, field, None), loop_level and not inner_loop):
+                return True
+        for h in getattr(st, "handlers", []) or []:
+            if _has_exit(h.body, loop_level):
+                return True
+        for c in getattr(st, "cases", []) or []:
+            if _has_exit(c.body, loop_level):
+                return True
+    return False
+
+
+def _has_yield(func):
+    todo = list(func.body)
+    while todo:
+        n = todo.pop()
+        if isinstance(n, (ast.Yield, ast.YieldFrom)):
+            return True
+        if isinstance(n, (ast.FunctionDef, ast.AsyncFunctionDef, ast.ClassDef, ast.Lambda)):
+            continue
+        todo.extend(ast.iter_child_nodes(n))
+    return False
+
+
+class _Raise:
+    def __repr__(self):
+        return "RAISE"
+
+
+RAISE = _Raise()
+
+
+class _PoisonEnv(dict):
+    def __init__(self, reason):
+        super().__init__()
+        self.reason = reason
+
+    def get(self, k, d=None):
+        return ast.Name(id="__unsupported__", ctx=ast.Load())
+
+    def __getitem__(self, k):
+        return ast.Name(id="__unsupported__", ctx=ast.Load())
+
+    def __contains__(self, k):
+        return True
 
 
 def summarize(func, mutators=None):
+    """see module docstring.  If the function uses a construct that is not modelled (a return inside a loop/try, a break,
+    a generator), `unsupported` names it, and `result` and every `env` entry are the opaque name `__unsupported__`, which
+    is equal to no specification: the rules built on summaries fail closed."""
+    try:
+        return _summarize(func, mutators)
+    except Unsupported as e:
+        sm = Summary()
+        sm.unsupported = str(e)
+        sm.result = ast.Name(id="__unsupported__", ctx=ast.Load())
+        sm.env = _PoisonEnv(str(e))
+        return sm
+
+
+def _merge_guards(guards):
+    """`A and g`, `not A and g` (the same refusal reached on both sides of an earlier branch) -> `g`"""
+    def parts(g):
+        return list(g.values) if isinstance(g, ast.BoolOp) and isinstance(g.op, ast.And) else [g]
+
+    def complementary(a, b):
+        ca, cb = canon(a), canon(b)
+        return ca == ("not", cb) or cb == ("not", ca)
+    gs = [parts(g) for g in guards]
+    changed = True
+    while changed:
+        changed = False
+        for i in range(len(gs)):
+            for j in range(i + 1, len(gs)):
+                a, b = gs[i], gs[j]
+                if len(a) != len(b) or len(a) < 2:
+                    continue
+                diff = [k for k in range(len(a)) if ast.dump(a[k]) != ast.dump(b[k])]
+                if len(diff) == 1 and complementary(a[diff[0]], b[diff[0]]):
+                    gs[i] = a[:diff[0]] + a[diff[0] + 1:]
+                    del gs[j]
+                    changed = True
+                    break
+            if changed:
+                break
+    return [g[0] if len(g) == 1 else ast.BoolOp(op=ast.And(), values=g) for g in gs]
+
+
+def _summarize(func, mutators=None):
     mutators = mutators or {}
     sm = Summary()
-
-    def ends_in_raise(block):
-        return bool(block) and isinstance(block[-1], ast.Raise)
+    if _has_yield(func):
+        raise Unsupported("generator function")
 
     pc = []   # branch conditions under which the current block runs (raising guards before it are implicit by order)
 
@@ -128,17 +302,68 @@ def summarize(func, mutators=None):
     def neg(t):
         return ast.UnaryOp(op=ast.Not(), operand=copy.deepcopy(t))
 
+    def name(n):
+        return ast.Name(id=n, ctx=ast.Load())
+
+    def merge_env(test, e1, e2, base):
+        merged = dict(base)
+        for n in set(e1) | set(e2):
+            a = e1.get(n, name(n))
+            b = e2.get(n, name(n))
+            merged[n] = a if ast.dump(a) == ast.dump(b) else ast.IfExp(test=copy.deepcopy(test), body=a, orelse=b)
+        return merged
+
+    def effect_of_call(c_, env):
+        """an expression statement `f(..)` / `x.m(..)`: every local object it may change in place is rebound to a
+        term that records the call (so that dropping, adding or changing such a call changes the summary)"""
+        cn = call_name(c_) or ast.unparse(c_.func)
+        if cn in _PURE_STATEMENT_CALLS:
+            return
+        touched = []
+        if isinstance(c_.func, ast.Attribute):
+            base = c_.func.value
+            while isinstance(base, (ast.Subscript, ast.Attribute)):
+                base = base.value
+            if isinstance(base, ast.Name) and base.id not in _MODULE_NAMES:
+                touched.append(base.id)
+        for k in c_.keywords:
+            if k.arg == "out":
+                base = k.value
+                while isinstance(base, (ast.Subscript, ast.Attribute)):
+                    base = base.value
+                if isinstance(base, ast.Name):
+                    touched.append(base.id)
+        if cn in mutators:
+            for k in mutators[cn]:
+                if k < len(c_.args):
+                    base = c_.args[k]
+                    while isinstance(base, (ast.Subscript, ast.Attribute)):
+                        base = base.value
+                    if isinstance(base, ast.Name):
+                        touched.append(base.id)
+        if not touched:
+            return
+        term = subst(c_, env)
+        for n in dict.fromkeys(touched):
+            env[n] = _call("__mut__", copy.deepcopy(term), ast.Constant(n))
+
     def run(block, env):
-        """returns (env, ret) - ret is an expression if every path through the block returned"""
+        """returns (env, ret): ret is None if the block falls off its end, RAISE if every path raises,
+        otherwise the expression returned (every path returned or raised)"""
         for i, st in enumerate(block):
             if isinstance(st, ast.Expr) and isinstance(st.value, ast.Constant):
                 continue
-            if isinstance(st, (ast.Import, ast.ImportFrom, ast.Pass, ast.Global, ast.Nonlocal, ast.Assert)):
+            if isinstance(st, (ast.Import, ast.ImportFrom, ast.Pass, ast.Global, ast.Nonlocal, ast.Assert,
+                               ast.FunctionDef, ast.AsyncFunctionDef, ast.ClassDef)):
                 continue
             if isinstance(st, ast.Return):
                 return env, subst(st.value, env) if st.value is not None else ast.Constant(None)
+            if isinstance(st, ast.Continue):
+                return env, None          # end of this iteration (summarize_block)
+            if isinstance(st, ast.Break):
+                raise Unsupported(f"break at line {getattr(st, 'lineno', '?')}")
             if isinstance(st, ast.Raise):
-                return env, None
+                return env, RAISE
             if isinstance(st, (ast.Assign, ast.AnnAssign)):
                 if isinstance(st, ast.AnnAssign):
                     if st.value is None:
@@ -153,11 +378,15 @@ def summarize(func, mutators=None):
             if isinstance(st, ast.AugAssign):
                 t = st.target
                 cur = subst(_load(t), env)
-                val = ast.BinOp(left=cur, op=st.op, right=subst(st.value, env))
+                rhs = subst(st.value, env)
+                if isinstance(t, ast.Name) and not (t.id in env and _is_fresh(env[t.id])) and not _scalar_like(rhs, cur):
+                    # in place: the object that the name refers to (a parameter, a view, another name's object) changes
+                    val = _call("__inplace__", ast.BinOp(left=cur, op=st.op, right=rhs))
+                else:
+                    val = ast.BinOp(left=cur, op=st.op, right=rhs)
                 _bind(t, val, env)
                 continue
             if isinstance(st, ast.Expr) and isinstance(st.value, ast.Call):
-                cn = call_name(st.value)
                 c_ = st.value
                 # list building: `xs.append(e)` / `xs.extend([..])` on a local bound to a list literal
                 if isinstance(c_.func, ast.Attribute) and isinstance(c_.func.value, ast.Name) and c_.func.attr in ("append", "extend") \
@@ -170,63 +399,68 @@ def summarize(func, mutators=None):
                     if isinstance(arg, (ast.List, ast.Tuple)):
                         env[c_.func.value.id] = ast.List(elts=list(cur.elts) + list(arg.elts), ctx=ast.Load())
                         continue
-                if cn in mutators:
-                    args = [subst(a, env) for a in st.value.args]
-                    for k in mutators[cn]:
-                        a = st.value.args[k]
-                        base = a
-                        while isinstance(base, ast.Subscript):
-                            base = base.value
-                        if isinstance(base, ast.Name):
-                            _bind(a if isinstance(a, ast.Name) else a, _call(f"__mut__{cn}", *copy.deepcopy(args)), env)
+                effect_of_call(c_, env)
                 continue
+            if isinstance(st, ast.Expr):
+                continue
+            if isinstance(st, ast.Delete):
+                for t in st.targets:
+                    if isinstance(t, ast.Name):
+                        env[t.id] = name(t.id + "'")
+                    else:
+                        _bind(t, name("__deleted__"), env)
+                continue
+            if isinstance(st, (ast.With, ast.AsyncWith)):
+                # transparent: the managed block runs exactly once
+                for it in st.items:
+                    if it.optional_vars is not None:
+                        _bind(it.optional_vars, _call("__enter__", subst(it.context_expr, env)), env)
+                return run(list(st.body) + list(block[i + 1:]), env)
             if isinstance(st, ast.If):
                 test = subst(st.test, env)
                 known = _known_truth(test)
+                rest = list(block[i + 1:])
                 if known is not None:
                     # the test is decided by what is bound (e.g. `acc is None` right after `acc = None`)
-                    env, r = run(st.body if known else st.orelse, env)
-                    if r is not None:
-                        return env, r
-                    continue
-                if ends_in_raise(st.body) and not st.orelse:
-                    guard(test)
-                    continue
-                if ends_in_raise(st.body) and st.orelse:
-                    guard(test)
-                    env, r = run(st.orelse, env)
-                    if r is not None:
-                        return env, r
-                    continue
-                if st.orelse and ends_in_raise(st.orelse) and not any(isinstance(x, ast.If) for x in st.orelse[:-1]):
-                    guard(neg(test))
-                    env, r = run(st.body, env)
-                    if r is not None:
-                        return env, r
-                    continue
+                    return run(list(st.body if known else st.orelse) + rest, env)
+                if _has_exit(st.body) or _has_exit(st.orelse):
+                    # path duplication: each branch is followed to the end of the function
+                    e1, r1 = run_under(test, list(st.body) + rest, dict(env))
+                    e2, r2 = run_under(neg(test), list(st.orelse) + rest, dict(env))
+                    if r1 is RAISE and r2 is RAISE:
+                        return env, RAISE
+                    if r1 is RAISE:
+                        guard(test)
+                        return e2, r2
+                    if r2 is RAISE:
+                        guard(neg(test))
+                        return e1, r1
+                    merged = merge_env(test, e1, e2, env)
+                    if r1 is None and r2 is None:
+                        return merged, None
+                    r1 = ast.Constant(None) if r1 is None else r1
+                    r2 = ast.Constant(None) if r2 is None else r2
+                    return merged, (r1 if ast.dump(r1) == ast.dump(r2) else ast.IfExp(test=test, body=r1, orelse=r2))
                 e1, r1 = run_under(test, st.body, dict(env))
                 e2, r2 = run_under(neg(test), st.orelse, dict(env)) if st.orelse else (dict(env), None)
-                rest = block[i + 1:]
-                if r1 is not None and r2 is not None:
-                    return env, ast.IfExp(test=test, body=r1, orelse=r2)
-                if r1 is not None:
-                    envr, rr = run_under(neg(test), rest, e2)
-                    return envr, (ast.IfExp(test=test, body=r1, orelse=rr) if rr is not None else None)
-                if r2 is not None:
-                    envr, rr = run_under(test, rest, e1)
-                    return envr, (ast.IfExp(test=test, body=rr, orelse=r2) if rr is not None else None)
-                merged = dict(env)
-                for n in set(e1) | set(e2):
-                    a = e1.get(n, ast.Name(id=n, ctx=ast.Load()))
-                    b = e2.get(n, ast.Name(id=n, ctx=ast.Load()))
-                    if ast.dump(a) == ast.dump(b):
-                        merged[n] = a
-                    else:
-                        merged[n] = ast.IfExp(test=copy.deepcopy(test), body=a, orelse=b)
-                env = merged
+                if r1 is RAISE and r2 is RAISE:
+                    return env, RAISE
+                if r1 is RAISE:
+                    guard(test)
+                    env = e2
+                    continue
+                if r2 is RAISE:
+                    guard(neg(test))
+                    env = e1
+                    continue
+                env = merge_env(test, e1, e2, env)
                 continue
-            # opaque compound statement
+            # opaque compound statement (loops, try, match)
+            if _has_exit([st], loop_level=False):
+                raise Unsupported(f"return inside {type(st).__name__.lower()} at line {getattr(st, 'lineno', '?')}")
             for n in _assigned_names([st]):
+                env[n] = ast.Name(id=n + "'", ctx=ast.Load())
+            for n in _mutated_names(st) - _assigned_names([st]):
                 env[n] = ast.Name(id=n + "'", ctx=ast.Load())
         return env, None
 
@@ -263,17 +497,18 @@ def summarize(func, mutators=None):
         return ast.Subscript(value=ast.Name(id="__idx__", ctx=ast.Load()), slice=copy.deepcopy(s), ctx=ast.Load())
 
     env, ret = run(list(func.body), {})
-    sm.result = ret
+    sm.result = None if ret is RAISE else ret
     sm.env = env
+    sm.guards = _merge_guards(sm.guards)
     return sm
 
 
 # ---------------------------------------------------------------------------
 # canonical form
 
-_METHOD_TO_FUNC = {"sum": "np.sum", "mean": "np.mean", "copy": "np.copy", "astype": "np.astype", "transpose": "np.transpose"}
+_METHOD_TO_FUNC = {"sum": "np.sum", "mean": "np.mean", "astype": "np.astype", "transpose": "np.transpose"}
 _FUNC_ALIASES = {"linalg.inv": "np.linalg.inv", "linalg.det": "np.linalg.det", "linalg.norm": "np.linalg.norm",
-                 "numpy.tile": "np.tile", "cos": "np.cos", "sin": "np.sin"}
+                 "numpy.tile": "np.tile"}
 
 
 def _neg(c):
@@ -346,6 +581,51 @@ def _seqfix(c):
     return c
 
 
+def _boolean_valued(x):
+    if isinstance(x, ast.Compare):
+        return True
+    if isinstance(x, ast.UnaryOp) and isinstance(x.op, ast.Not):
+        return True
+    if isinstance(x, ast.BoolOp):
+        return all(_boolean_valued(v) for v in x.values)
+    if isinstance(x, ast.Constant) and isinstance(x.value, bool):
+        return True
+    if isinstance(x, ast.Call):
+        fn = x.func
+        if isinstance(fn, ast.Name) and fn.id in ("isinstance", "issubclass", "hasattr", "callable", "bool", "any", "all"):
+            return True
+        if isinstance(fn, ast.Attribute) and fn.attr in ("any", "all", "startswith", "endswith", "isdigit", "isspace", "isalpha", "issubset", "isupper", "islower"):
+            return True
+        if isinstance(fn, ast.Attribute) and ast.unparse(fn) in ("np.any", "np.all", "np.isnan", "np.isfinite", "np.issubdtype", "np.array_equal", "np.allclose"):
+            return True
+    return False
+
+
+def _protects(x):
+    """names whose later use a test makes safe (None tests, type tests, length / membership tests)"""
+    out = set()
+    for n in ast.walk(x):
+        if isinstance(n, ast.Compare) and any(isinstance(o, (ast.Is, ast.IsNot, ast.In, ast.NotIn)) for o in n.ops):
+            out |= {m.id for m in ast.walk(n) if isinstance(m, ast.Name)}
+        if isinstance(n, ast.Call) and isinstance(n.func, ast.Name) and n.func.id in ("isinstance", "hasattr", "len", "callable"):
+            out |= {m.id for a in n.args for m in ast.walk(a) if isinstance(m, ast.Name)}
+    return out
+
+
+def _order_free(values):
+    """may the operands of and/or be reordered: only truth values matter and no operand guards the evaluation of another"""
+    if not all(_boolean_valued(v) for v in values):
+        return False
+    for i, v in enumerate(values):
+        prot = _protects(v)
+        if not prot:
+            continue
+        for j, w in enumerate(values):
+            if j != i and prot & {m.id for m in ast.walk(w) if isinstance(m, ast.Name)} and not _protects(w):
+                return False
+    return True
+
+
 def canon(e):
     return _seqfix(_hoist(_canon(e)))
 
@@ -367,7 +647,10 @@ def _canon(e):
             return _canon(e.operand)
         if isinstance(e.op, ast.Not):
             c = _canon(e.operand)
-            return c[1] if isinstance(c, tuple) and c[0] == "not" else ("not", c)
+            inner = e.operand.operand if isinstance(e.operand, ast.UnaryOp) and isinstance(e.operand.op, ast.Not) else None
+            if isinstance(c, tuple) and c[0] == "not" and (inner is None or _boolean_valued(inner)):
+                return c[1]     # `not (a is not b)`; `not not <truth value>` (but `not not x` is bool(x), not x)
+            return ("not", c)
         return ("~", _canon(e.operand))
     if isinstance(e, ast.BinOp):
         if isinstance(e.op, ast.Add) and _has_sequence_operand(e):
@@ -430,6 +713,9 @@ def _canon(e):
                     parts.append(_canon(x))
             flatmm(e)
             return ("@",) + tuple(parts)
+        if isinstance(e.op, ast.BitOr) and any(isinstance(x, (ast.Dict, ast.DictComp)) or isinstance(x, ast.Call) and call_name(x) == "dict"
+                                               for x in (e.left, e.right)):
+            return ("dict|", _canon(e.left), _canon(e.right))
         if isinstance(e.op, (ast.BitAnd, ast.BitOr)):
             k = type(e.op)
             parts = []
@@ -443,7 +729,10 @@ def _canon(e):
             return ("&" if k is ast.BitAnd else "|",) + tuple(sorted(parts, key=repr))
         return (type(e.op).__name__, _canon(e.left), _canon(e.right))
     if isinstance(e, ast.BoolOp):
-        return ("and" if isinstance(e.op, ast.And) else "or",) + tuple(sorted((_canon(v) for v in e.values), key=repr))
+        vals = tuple(_canon(v) for v in e.values)
+        if _order_free(e.values):
+            vals = tuple(sorted(vals, key=repr))
+        return ("and" if isinstance(e.op, ast.And) else "or",) + vals
     if isinstance(e, ast.Compare):
         if len(e.ops) == 1:
             a, b, op = _canon(e.left), _canon(e.comparators[0]), e.ops[0]
@@ -496,7 +785,7 @@ def _canon(e):
         return ("[]", _canon(e.value), _canon(e.slice))
     if isinstance(e, ast.Slice):
         lo = _canon(e.lower) if e.lower is not None else None
-        if lo == ("const", 0):
+        if lo == ("const", 0) and (e.step is None or isinstance(e.step, ast.Constant) and isinstance(e.step.value, int) and e.step.value > 0):
             lo = None
         return ("slice", lo, _canon(e.upper) if e.upper is not None else None, _canon(e.step) if e.step is not None else None)
     if isinstance(e, (ast.Tuple, ast.List)):
